@@ -27,7 +27,7 @@ type stopScenario struct {
 	cancelBeforeError bool
 }
 
-var stopCauses = []string{"eof", "err", "close", "reset", "short", "outofseq", "cancel-idle", "cancel-handler", "handler-err", "handler-err-cancel", "invalid", "unsupported", "unknown-table", "mapper-err", "connect-fail", "announce-rejected", "announce-lost", "foreign-packet"}
+var stopCauses = []string{"eof", "err", "close", "reset", "short", "outofseq", "cancel-idle", "cancel-handler", "handler-err", "handler-err-cancel", "invalid", "unsupported", "unknown-table", "mapper-err", "connect-fail", "announce-rejected", "announce-lost", "dump-unsendable", "foreign-packet"}
 
 // runTermination covers C05 (termination, nothing left behind, Error() never blocks, handler scope) and
 // C06 (the reason is reported): every stop cause x stop point x reader blocking state x handler speed.
@@ -169,6 +169,11 @@ func runStopScenario(c *Ctx, prop string, h *history, evs [][]byte, idx []int, f
 			env.m.close() // nothing listens any more
 			time.Sleep(5 * time.Millisecond)
 		}
+	} else if sc.cause == "dump-unsendable" {
+		// the announcement is accepted, but the dump command cannot be sent (it exceeds the connection's
+		// max_allowed_packet because of a long file name): a connection exists, no reader was ever started
+		env, err = newE2EDSN(h.tables, 77, mapper, "?maxAllowedPacket=64")
+		f0 = strings.Repeat("b", 60) + ".000001"
 	} else {
 		env, err = newE2E(h.tables, 77, mapper)
 	}
@@ -187,7 +192,7 @@ func runStopScenario(c *Ctx, prop string, h *history, evs [][]byte, idx []int, f
 	}
 	env.s.SetBinlogPosition(gobinlog.Position{Filename: f0, Offset: o0})
 	res := env.runWith(0, a, base, sc.cancelBeforeError)
-	announceFails := sc.cause == "announce-rejected" || sc.cause == "announce-lost"
+	announceFails := sc.cause == "announce-rejected" || sc.cause == "announce-lost" || sc.cause == "dump-unsendable"
 	masterCloses := a.terminal == "close" || a.terminal == "reset" || a.terminal == "short" || sc.cause == "announce-lost"
 
 	// ---- correspondence with the protocol model: the observed outcome must be one the LTS admits ----
@@ -332,9 +337,9 @@ func runStopScenario(c *Ctx, prop string, h *history, evs [][]byte, idx []int, f
 	}
 	// ---- C06 ----
 	if announceFails && len(res.dumps) > 0 {
-		add("spec", "reporting: a dump was requested although the checksum announcement failed", "no dump request", fmt.Sprintf("%+v", res.dumps))
+		add("spec", "reporting: the master received a dump request although the announcement failed / the request could not be sent", "no dump request", fmt.Sprintf("%+v", res.dumps))
 	}
-	mustFail := map[string]bool{"announce-rejected": true, "announce-lost": true, "foreign-packet": true, "handler-err": true, "handler-err-cancel": true, "invalid": true, "unsupported": true, "unknown-table": true, "mapper-err": true, "connect-fail": true}
+	mustFail := map[string]bool{"dump-unsendable": true, "announce-rejected": true, "announce-lost": true, "foreign-packet": true, "handler-err": true, "handler-err-cancel": true, "invalid": true, "unsupported": true, "unknown-table": true, "mapper-err": true, "connect-fail": true}
 	if mustFail[sc.cause] && res.streamErr == nil {
 		add("spec", "reporting: Stream returned nil after "+sc.cause, "non-nil error", "nil")
 	}
